@@ -9,7 +9,7 @@ From TK Require Import QuadTree_Model QuadTree_Spec QuadTree_SpecExec QuadTree_P
                        QuadTree_Proof_Insert QuadTree_Proof_Main QuadTree_Proof_Forces
                        QuadTree_Proof_Fuel QuadTree_Proof_Spec QuadTree_Proof_Exec
                        QuadTree_Proof_Observers QuadTree_Proof_Order QuadTree_Proof_Order2 QuadTree_Proof_Bound
-                       QuadTree_Proof_Gradient
+                       QuadTree_Proof_Gradient QuadTree_Proof_Dump
                        QuadTree_Proof_Final QuadTree_Proof_Sqrt.
 Import ListNotations.
 Local Open Scope Q_scope.
@@ -259,6 +259,28 @@ Theorem struct_okb_sound : forall data ins t,
   struct_okb data ins t = true -> spec data ins (recom data ins t) /\ cum_consistent t = true.
 Proof. exact struct_okb_sound_final. Qed.
 Print Assumptions struct_okb_sound.
+
+(* 8a. the force clauses follow from the SPECIFICATION of the tree alone - for any tree, however it was built; in
+       particular for the dump of the real tree once the extracted checker struct_okb has accepted it (centres of
+       mass replaced by the exact means, which the run compares with the dumped doubles) *)
+Theorem spec_implies_force_clauses : forall data ins t,
+  spec data ins t -> NoCo data ins ->
+  forall i p, nth_error data i = Some p ->
+    (forall a, feq (forces_at p i 0 t a) (fadd a (exact_sums data p i ins))) /\
+    (forall theta, 0 <= theta -> 8 * (theta * theta) <= 1 ->
+       bound theta (forces_at p i theta t (0, 0, 0)) (exact_sums data p i ins)).
+Proof. exact spec_forces_final. Qed.
+Print Assumptions spec_implies_force_clauses.
+Theorem checked_dump_force_clauses : forall data ins t,
+  struct_okb data ins t = true -> NoCo data ins ->
+  forall i p, nth_error data i = Some p ->
+    (forall a, feq (forces_at p i 0 (recom data ins t) a) (fadd a (exact_sums data p i ins))) /\
+    (forall theta, 0 <= theta -> 8 * (theta * theta) <= 1 ->
+       bound theta (forces_at p i theta (recom data ins t) (0, 0, 0)) (exact_sums data p i ins)).
+Proof. exact dump_forces_final. Qed.
+Print Assumptions checked_dump_force_clauses.
+Example checked_dump_nonvacuous : exists t, struct_okb ex_data2 ex_order2 t = true /\ NoCo ex_data2 ex_order2.
+Proof. exact ex_dump. Qed.
 
 (* 9. the list of summarised cells the model driver prints is what forces_at folds over *)
 Theorem forces_fold_cells : forall p i theta t n a,
